@@ -22,6 +22,10 @@ SPECS_T = SPECS_Q + ["^7", "^#7", "*>9", "*>#9", "-", "-#", "08", "#08", ".3", "
 ATOMS = r'''
 use core::fmt::{self, Debug, Formatter};
 pub struct A; pub struct M; pub struct X;
+// an inherent `fmt` wins over Debug's under method-call syntax: an expansion (or builder) writing `value.fmt(f)` prints POISON
+impl A { pub fn fmt(&self, f: &mut Formatter<'_>) -> fmt::Result { f.write_str("<POISON>") } }
+impl M { pub fn fmt(&self, f: &mut Formatter<'_>) -> fmt::Result { f.write_str("<POISON>") } }
+impl X { pub fn fmt(&self, f: &mut Formatter<'_>) -> fmt::Result { f.write_str("<POISON>") } }
 impl Debug for A { fn fmt(&self, f: &mut Formatter<'_>) -> fmt::Result {
     let s = format!("a{}{}", if f.alternate() {"#"} else {""}, if f.width().is_some() {"w"} else {""}); f.write_str(&s) } }
 impl Debug for M { fn fmt(&self, f: &mut Formatter<'_>) -> fmt::Result { f.write_str("m\n")?; f.write_str("n") } }
